@@ -1417,6 +1417,15 @@ impl ProtocolState {
 
                 if let Err(error) = validate_packet_outbound_internal(packet, &validation_context) {
                     warn!("[{} ms] service_queue - {} operation {} failed last-chance validation", self.elapsed_time_ms, mqtt_packet_to_str(packet), current_operation_id);
+
+                    // Alias resolution may have recorded a binding for this packet, but the packet will never be
+                    // sent.  Forget all outbound bindings (they get re-announced on demand) so that a later publish
+                    // never relies on an alias the server has not seen.
+                    if outbound_alias_resolution.alias.is_some() {
+                        let topic_alias_maximum = self.current_settings.as_ref().map(|settings| settings.topic_alias_maximum_to_server).unwrap_or(0);
+                        self.outbound_alias_resolver.borrow_mut().reset_for_new_connection(topic_alias_maximum);
+                    }
+
                     self.current_operation = None;
                     self.complete_operation_as_failure(current_operation_id, error)?;
                     continue;
